@@ -193,7 +193,8 @@ def answerRot (ws : List String) : String :=
     | some (keep, m, init, ops, obs) =>
       if init.old.length != m then "bad-case rot-window" else
       let ks := keeps keep ops
-      let tags := dedupStr (rotArm m ks init ops obs)
+      let seen := rotArm m ks init ops obs
+      let tags := ["rotate", "drop", "gap", "outside", "panic"].filter seen.contains
       let arm := "rot" ++ String.join (tags.map (fun t => "-" ++ t))
       let cs := rotTraceClauses m ks init ops obs
       if !allHold cs then "propfail " ++ failedNames cs ++ " arm=" ++ arm else
